@@ -145,6 +145,30 @@ def generate(batch: str, r: Rng, idx: int, tier: str) -> Dict[str, Any]:
         feat.update({"timers": True, "imr_writes": True, "halt": idx % 14 == 0, "wait": True})
     n = r.child("len").choice([40, 60, 100, 160, 240] if executor == "rs-machine" else [40, 60, 100, 160])
     scn = machine.gen_machine_scenario(r, executor, feat, boundaries=n, faulty=faulty)
+    rb = r.child("boot")
+    if faulty and executor == "py-machine" and rb.chance(1, 5):
+        # a boot phase: the firmware starts with the system stack pointer not loaded yet (S < 5) and interrupts
+        # already enabled; an ON-key or key press arrives before `MV S, ...`.  (Python holds such a request back until the
+        # stack exists; the Rust machine builds the frame wherever S points, which this scenario does not judge.)
+        stub_base = progen.CODE_BASE - 0x40
+        k = rb.range(1, 5)
+        main = scn["prog"]["main"]
+        stub = [0x00] * k + [0x0F, progen.S_INIT & 0xFF, (progen.S_INIT >> 8) & 0xFF, (progen.S_INIT >> 16) & 0xFF] + \
+               [0x02, main & 0xFF, (main >> 8) & 0xFF]
+        scn["prog"]["image"] = [[stub_base, stub]] + scn["prog"]["image"]
+        for i in range(k):
+            scn["prog"]["ins"][str(stub_base + i)] = [1, "NOP"]
+        scn["prog"]["ins"][str(stub_base + k)] = [4, "MV_S"]
+        scn["prog"]["ins"][str(stub_base + k + 4)] = [3, "JP:main"]
+        scn["prog"]["code"] = [stub_base, scn["prog"]["code"][1]]
+        scn["prog"]["entry"] = stub_base
+        scn["regs"]["PC"] = stub_base
+        scn["regs"]["S"] = rb.below(5)
+        scn["imem"] = [[progen.IMR, rb.choice([0x8F, 0x88, 0x8C, 0x84])], [progen.ISR, 0]]
+        at = rb.range(0, k)
+        ev = [[at, "onk", 1], [at + rb.range(2, 10), "onk", 0]] if rb.chance(2, 3) else []
+        scn["ops"] = sorted(scn["ops"] + ev, key=lambda o: o[0])
+        scn["boot"] = True
     if faulty and r.child("restart").chance(1, 4):
         # crash/restart at an arbitrary boundary (snapshot -> fresh machine): the interrupt controller's state —
         # pending requests, handler nesting, the saved frame — must survive it like everything else
